@@ -224,6 +224,32 @@ CLAIMED = {
         "MAKE_PROPERTY / MAKE_SEQ descriptions are exercised under C11, not here; trailing comments are claimed only "
         "in enumerator lists.",
         "DESIGN.md §C05"),
+    "C12": (
+        "TLA+ specs IdbFileFormat/IdbFile (the text format as a byte stream: writers per minor version 3.0-3.3, istream "
+        "primitives with the fail bit, every record reader, the reader as a step machine, 'temporary database then "
+        "merge'), TLC: round trip, byte identity, version defaults, every content-removing prefix rejected whole; the "
+        "spec's Write output IS the file replayed into libinterrogatedb (fresh process per case), every interface "
+        "function compared with the spec's database, InterrogateDatabase::write compared byte for byte; real databases "
+        "and all their prefixes likewise",
+        "TLC proves the round-trip and never-half-merged properties for every database of the bounded family with "
+        "adversarial strings in each minor format and every proper prefix; the library must agree with the spec's "
+        "reader and writer on each of those files and on real interrogate output.",
+        "Trusted: TLC, the ctypes driver harness/idb_driver.py and harness/idb_write.cxx. An identifier mismatch sets "
+        "the error flag while the file may still be merged completely (accepted: fully merged or not at all).",
+        "DESIGN.md §C12"),
+    "C20": (
+        "TLA+ spec IdbQuery (every interface function as a total operator; get_wrapper_by_unique_name = hash prefix + "
+        "binary_search_wrapper_hash and get_fptr / binary_search_module as STEP MACHINES with NoAbort, StepBound, "
+        "exactness invariants and <>Returned under weak fairness), TLC over all sorted tables of size 0..6 x every key "
+        "position and all module-range layouts x every index; every enumerated query executed against "
+        "libinterrogatedb in forked processes with CPU-time limits",
+        "Termination and exactness of the searches are model checked for every table and key position; totality and "
+        "lookup soundness are checked by executing every interface function with every index in [-2, next+2] and "
+        "extreme ints and every position in [-1, count+1] on generated and real databases (172 760 calls in the "
+        "quick tier), each compared with the spec's neutral or exact value.",
+        "Trusted: TLC, the ctypes driver (prototypes parsed from interrogate_interface.h). The neutral value of "
+        "interrogate_type_array_size is 1 (what a default record answers), accepted as defined-neutral.",
+        "DESIGN.md §C20"),
 }
 
 NOT_APPLICABLE = {
